@@ -126,23 +126,23 @@ def goShiftCountOk (cnt : Int) : Bool := decide (0 ≤ cnt ∧ cnt ≤ goShiftBo
 
 Go's constant arithmetic on untyped floating-point constants is exact too: values are rationals
 (`Rat`).  An untyped constant has a *kind* — integer < rune < floating-point — and the kind of a
-binary operation on untyped operands is the larger one.  `/` is the truncated integer division
+binary operation on untyped operands is the larger one (complex is the largest).  `/` is the truncated integer division
 when both operands are of integer kind and the exact rational division otherwise; `%` and the
 bitwise operators are defined on integer kinds only; a floating-point constant can be converted to
 an integer type, or shifted, only if its value is an integer ("truncated to integer" otherwise). -/
 
 inductive UKind where
-  | int | rune | float
+  | int | rune | float | complex
   deriving DecidableEq, Repr
 
 def UKind.rank : UKind → Nat
-  | .int => 0 | .rune => 1 | .float => 2
+  | .int => 0 | .rune => 1 | .float => 2 | .complex => 3
 
 def UKind.max (a b : UKind) : UKind := if a.rank < b.rank then b else a
 
 def UKind.isInteger : UKind → Bool
-  | .float => false
-  | _ => true
+  | .int | .rune => true
+  | _ => false
 
 /-- type of a numeric constant -/
 inductive Ty where
@@ -183,5 +183,34 @@ def cmpQ : Cmp → Rat → Rat → Bool
   | .le, a, b => decide (a ≤ b)
   | .gt, a, b => decide (b < a)
   | .ge, a, b => decide (b ≤ a)
+
+/-! ### complex constants: exact rational real and imaginary parts -/
+
+structure CQ where
+  re : Rat
+  im : Rat
+  deriving DecidableEq, Repr
+
+def CQ.ofReal (q : Rat) : CQ := ⟨q, 0⟩
+def CQ.isReal (z : CQ) : Bool := z.im == 0
+
+/-- `+ - * /` on complex constants; the other operators are not defined on them -/
+def arithC (op : Arith) (x y : CQ) : Except ArithErr CQ :=
+  match op with
+  | .add => .ok ⟨x.re + y.re, x.im + y.im⟩
+  | .sub => .ok ⟨x.re - y.re, x.im - y.im⟩
+  | .mul => .ok ⟨x.re * y.re - x.im * y.im, x.im * y.re + x.re * y.im⟩
+  | .quo =>
+    let s := y.re * y.re + y.im * y.im
+    if s = 0 then .error .divZero
+    else .ok ⟨(x.re * y.re + x.im * y.im) / s, (x.im * y.re - x.re * y.im) / s⟩
+  | _ => .error .notDefined
+
+/-- complex constants are comparable with `==` and `!=` only -/
+def cmpC (op : Cmp) (x y : CQ) : Option Bool :=
+  match op with
+  | .eq => some (decide (x = y))
+  | .ne => some (decide (x ≠ y))
+  | _ => none
 
 end ScriggoV.Spec.GoConst
